@@ -128,7 +128,7 @@ var props = map[string]propCfg{
 	"C17": {Focus: "C17", Arms: []string{"addr", "auth", "mtls"}, Probes: []string{"c17a_case_checked", "c17b_case_checked", "c17_mtls_checked", "c17_mtls_unacceptable_client"}},
 	"C18": {Focus: "C18", Arms: []string{"xclose", "rclose", "startfault", "xclose", "latedial"}, Probes: []string{"c18_upstream_close_checked", "c18_router_close_checked", "c18_call_after_close", "c18_call_inflight_at_close"}},
 	"C19": {Focus: "C19", Arms: []string{"clean", "clean", "prefetch"}, Probes: []string{"cache_hit", "cache_hit_last_quarter", "c07_hit_expected"}},
-	"C09": {Focus: "C09", Arms: []string{"clean"}, Probes: []string{"c09_truncated", "c09_fits"}},
+	"C09": {Focus: "C09", Arms: []string{"clean", "clean", "codec"}, Probes: []string{"c09_truncated", "c09_fits"}},
 	"C10": {Focus: "C10", Arms: []string{"clean", "startfault", "clean", "prefetch", "cli"}, Probes: []string{"c10_cli_unknown_key_rejected", "c10_cli_control_started", "c10_forward_checked", "c10_reject", "c10_refused"}},
 	"C11": {Focus: "C11", Arms: []string{"clean"}, Probes: []string{"c10_forward_checked", "c11_matched", "c11_unmatched"}},
 	"C12": {Focus: "C12", Arms: []string{"clean", "prefetch", "overload"}, Probes: []string{"c12_client_opt_checked", "c12_upstream_opt_checked", "c12_ecs_checked"}},
@@ -558,7 +558,11 @@ func main() {
 	}
 	writeEvidence(*evidenceDir, *prop, *tier, seed, cfg, results, wall, reported, knownSeen, others, undecided)
 	for _, k := range sortedKeys(otherEx) {
-		fmt.Printf("note: violation of another property seen during this campaign: %s (%d) e.g. %s\n", k, others[k], tail(otherEx[k], 400))
+		ex := otherEx[k]
+		if len(ex) > 500 {
+			ex = ex[:500] + "…"
+		}
+		fmt.Printf("note: violation of another property seen during this campaign: %s (%d) e.g. %s\n", k, others[k], ex)
 	}
 	good := 0
 	for _, r := range results {
